@@ -138,6 +138,22 @@ def o_roundtrip(rec: Recorder, case, soft=False):
     after = _state(back)
     if fmt == "uri" and before["issuer"] is None and F.issuer:
         before["issuer"] = F.issuer
+    if fmt == "uri":
+        # the URI is read by another party (an authenticator app, a plain TOTP class without this factory's defaults): it must itself
+        # carry everything, including an issuer / digits / period / alg that the object only has from its factory
+        from passlib.totp import TOTP as PLAIN
+
+        st2, other = call(PLAIN.from_uri, ser)
+        if st2 == "err":
+            rec.fail("C15/own-serialisation-rejected/uri-plain", "the plain TOTP class rejects the URI a configured factory's object produced", "roundtrip", case, repr(other), ser, soft=soft)
+            return
+        o = _state(other)
+        diff = {k: (before[k], o[k]) for k in before if before[k] != o[k]}
+        if diff:
+            field = sorted(diff)[0]
+            rec.fail(f"C15/field-lost/uri-read-without-factory-defaults/{field}", f"the URI does not carry {sorted(diff)} (only a reader sharing the factory's defaults gets them back)", "roundtrip", case,
+                     {k: repr(v[1]) for k, v in diff.items()}, {k: repr(v[0]) for k, v in diff.items()}, soft=soft)
+            return
     diff = {k: (before[k], after[k]) for k in before if before[k] != after[k]}
     if diff:
         field = sorted(diff)[0]
